@@ -17,8 +17,11 @@ import os
 
 from pyfront.interp import TranslationError
 
-COQTY = {'N': 'nat', 'B': 'bool', 'T': 'list Z', 'TS': 'list (list Z)', 'D': 'pyv', 'M': 'list bool', 'I': 'list nat',
-         'G': 'gen', 'GS': 'list gen'}
+COQTY = {'N': 'nat', 'B': 'bool', 'T': 'list Z', 'TS': 'list (list Z)', 'TU': 'list (list Z)', 'D': 'pyv', 'M': 'list bool',
+         'I': 'list nat', 'G': 'gen', 'GS': 'list gen', 'DS': 'list pyv', 'SEGS': 'list (list (list Z))',
+         'FS': 'list (list Z -> list Z)', 'F1': 'list Z -> list Z'}
+# TS = a Python list of tensors, TU = a tuple of tensors, DS = a list of get_examples() values,
+# SEGS = the tuples produced by zip(*values), FS = a list of user callables on one tensor
 
 
 def par(code):
@@ -48,6 +51,12 @@ def load_class_methods(repo, relpath, cls):
     raise TranslationError(relpath, 0, f'class {cls} not found')
 
 
+def load_module_functions(repo, relpath):
+    """top-level `def`s of the module (candidates for inlining when called by their bare name)"""
+    tree = ast.parse(open(os.path.join(repo, relpath)).read())
+    return {n.name: n for n in tree.body if isinstance(n, ast.FunctionDef)}
+
+
 class Fn:
     """Translation of one method.
     params : [(python name, coq name, type)]         positional parameters after self ('*name' for varargs)
@@ -60,11 +69,15 @@ class Fn:
     """
 
     def __init__(self, relpath, cls, fdef, name, params, fields, reads, writes, draw=None, oracles=None,
-                 gen_size=None, returns_value=True, extra_params=(), helpers=None):
+                 gen_size=None, returns_value=True, extra_params=(), helpers=None, children=False, callables=None,
+                 module_helpers=None):
         self.relpath, self.cls, self.fdef, self.name = relpath, cls, fdef, name
         self.params, self.fields, self.reads, self.writes = params, fields, reads, writes
         self.draw, self.oracles, self.gen_size = draw, oracles or {}, gen_size
         self.returns_value = returns_value
+        self.children = children        # g.get_examples() of child objects is the oracle function `get`
+        self.callables = callables or {}  # {'self.trans': (is_callable flag, callable name, list-of-callables name)}
+        self.module_helpers = module_helpers or {}   # {name: FunctionDef} module-level functions that may be inlined
         self.helpers = helpers or {}     # {name: FunctionDef} methods of the same class that may be inlined
         self.inline_depth = 0
         self.extra_params = list(extra_params)    # [(coq name, coq type)] e.g. the size of the underlying generator
@@ -107,10 +120,12 @@ class Fn:
             return f'PL ({code})'
         if (ty, want) == ('T', 'D'):
             return f'PT ({code})'
+        if (ty, want) == ('TU', 'D'):
+            return f'PU ({code})'
         self.err(node, f'cannot use a value of type {ty} where {want} is needed')
 
     def as_seq(self, node, code, ty):
-        if ty == 'TS':
+        if ty in ('TS', 'TU'):
             return code
         if ty == 'D':
             return f'as_seq {par(code)}'
@@ -190,6 +205,14 @@ class Fn:
                 if te == 'D' and ref.get(ek) == 'tensor':
                     return f'[as_tensor {par(e)}]', 'TS'
             self.err(node, 'list display not accepted (only [v] for a tensor v)')
+        if isinstance(node, ast.Tuple) and len(node.elts) == 1:
+            ek = self.key_of(node.elts[0])
+            e, te = self.expr(node.elts[0], env, binds, ref)
+            if te == 'T':
+                return f'[{e}]', 'TU'
+            if te == 'D' and ref.get(ek) == 'tensor':
+                return f'[as_tensor {par(e)}]', 'TU'
+            self.err(node, 'tuple display not accepted (only (v,) for a tensor v)')
         if isinstance(node, ast.Subscript):
             return self.subscript(node, env, binds, ref)
         if isinstance(node, ast.ListComp):
@@ -256,12 +279,109 @@ class Fn:
                 r1[k], r2[k] = 'tensor', 'seq'
             elif k is not None and what == 'tuple':
                 r1[k] = 'tuple'
+            elif k is not None and what == 'list':
+                r1[k] = 'list'
         return r1, r2
 
     def call(self, node, env, binds, ref):
         text = ast.unparse(node.func)
+        # torch.meshgrid(ret, indexing='ij')
+        if text == 'torch.meshgrid' and len(node.args) == 1 and len(node.keywords) == 1 and node.keywords[0].arg == 'indexing' \
+                and isinstance(node.keywords[0].value, ast.Constant) and node.keywords[0].value.value == 'ij':
+            v, tv = self.expr(node.args[0], env, binds, ref)
+            return f'meshgrid_ij {par(self.as_seq(node.args[0], v, tv))}', 'TU'
         if node.keywords:
             self.err(node, 'keyword arguments not accepted')
+        # methods of a tensor: r.flatten(), u.reshape(-1, 1)
+        if isinstance(node.func, ast.Attribute) and node.func.attr in ('flatten', 'reshape') and self.key_of(node.func.value) is not None \
+                and self.key_of(node.func.value) in env and env[self.key_of(node.func.value)][1] == 'T':
+            v, _ = env[self.key_of(node.func.value)]
+            if node.func.attr == 'flatten' and not node.args:
+                return f'flatten_nd {v}', 'T'
+            if node.func.attr == 'reshape' and [ast.unparse(a) for a in node.args] == ['-1', '1']:
+                return f'reshape_n1 {v}', 'T'
+            self.err(node, 'tensor method call not accepted')
+        # g.get_examples() of a child generator object (a loop / comprehension variable)
+        if isinstance(node.func, ast.Attribute) and node.func.attr == 'get_examples' and not node.args \
+                and isinstance(node.func.value, ast.Name) and env.get(node.func.value.id, (None, None))[1] == 'G' \
+                and env[node.func.value.id][0] != '#underlying':
+            if not self.children:
+                self.err(node, 'sampling a child generator is not accepted here')
+            if ('get', 'gen -> pyv') not in self.used_oracles:
+                self.used_oracles.append(('get', 'gen -> pyv'))
+            return f'get {env[node.func.value.id][0]}', 'D'
+        # tuple() / tuple(e) / tuple(<generator expression over zip>)
+        if text == 'tuple' and not node.args:
+            return '[]', 'EMPTYTU'
+        if text == 'tuple' and len(node.args) == 1:
+            a = node.args[0]
+            if isinstance(a, ast.GeneratorExp):
+                fake = ast.ListComp(elt=a.elt, generators=a.generators)
+                ast.copy_location(fake, a)
+                c, tc = self.comprehension(fake, env, binds, ref)
+                if tc != 'TS':
+                    self.err(node, 'tuple(...) of this generator expression is not accepted')
+                return c, 'TU'
+            k = self.key_of(a)
+            v, tv = self.expr(a, env, binds, ref)
+            if tv == 'D' and ref.get(k) in ('list', 'tuple'):
+                return f'as_seq {par(v)}', 'TU'
+            if tv in ('TS', 'TU'):
+                return v, 'TU'
+            self.err(node, 'tuple() only of a value known to be a list / tuple')
+        # user callables held in a field:  callable(self.trans), self.trans(xs), self.trans(*xs), self.trans[0](xs)
+        if text == 'callable' and len(node.args) == 1 and self.key_of(node.args[0]) in self.callables:
+            return self.callables[self.key_of(node.args[0])][0], 'B'
+        if self.key_of(node.func) in self.callables and len(node.args) == 1:
+            _, fn, _ = self.callables[self.key_of(node.func)]
+            a = node.args[0]
+            if isinstance(a, ast.Starred):
+                v, tv = self.expr(a.value, env, binds, ref)
+                arg = self.as_seq(a, v, tv)
+            else:
+                k = self.key_of(a)
+                v, tv = self.expr(a, env, binds, ref)
+                if not (tv == 'T' or (tv == 'D' and ref.get(k) == 'tensor')):
+                    self.err(node, 'a user callable is applied to one tensor or to *sequence')
+                arg = f'[{v}]' if tv == 'T' else f'[as_tensor {par(v)}]'
+            if (fn, 'list (list Z) -> pyv') not in self.used_oracles:
+                self.used_oracles.append((fn, 'list (list Z) -> pyv'))
+            return f'{fn} {par(arg)}', 'D'
+        if isinstance(node.func, ast.Subscript) and self.key_of(node.func.value) in self.callables and len(node.args) == 1 \
+                and isinstance(node.func.slice, ast.Constant) and node.func.slice.value == 0:
+            _, _, fl = self.callables[self.key_of(node.func.value)]
+            k = self.key_of(node.args[0])
+            v, tv = self.expr(node.args[0], env, binds, ref)
+            if not (tv == 'T' or (tv == 'D' and ref.get(k) == 'tensor')):
+                self.err(node, 'a user callable is applied to one tensor')
+            if (fl, COQTY['FS']) not in self.used_oracles:
+                self.used_oracles.append((fl, COQTY['FS']))
+            f = self.fresh('f')
+            binds.append((f, f'index0 {fl}'))
+            return f'{f} {par(v if tv == "T" else "as_tensor " + par(v))}', 'T'
+        # a loop variable bound to a user callable: t(x)
+        if isinstance(node.func, ast.Name) and env.get(node.func.id, (None, None))[1] == 'F1' and len(node.args) == 1:
+            v, tv = self.expr(node.args[0], env, binds, ref)
+            if tv != 'T':
+                self.err(node, 'a user callable is applied to one tensor')
+            return f'{env[node.func.id][0]} {par(v)}', 'T'
+        # torch.cat(<list of values>) and zip(*<list of values>)
+        if text == 'torch.cat' and len(node.args) == 1 and not isinstance(node.args[0], ast.List):
+            v, tv = self.expr(node.args[0], env, binds, ref)
+            if tv == 'DS':
+                name = self.fresh('e')
+                binds.append((name, f'cat_all {par(v)}'))
+                return name, 'T'
+            if tv in ('TS', 'TU'):
+                return f'concat {par(v)}', 'T'
+            self.err(node, 'torch.cat of this is not accepted')
+        if text == 'zip' and len(node.args) == 1 and isinstance(node.args[0], ast.Starred):
+            v, tv = self.expr(node.args[0].value, env, binds, ref)
+            if tv != 'DS':
+                self.err(node, 'zip(*...) only of a list of get_examples() values')
+            name = self.fresh('z')
+            binds.append((name, f'zip_star {par(v)}'))
+            return name, 'SEGS'
         if text == 'isinstance' and len(node.args) == 2:
             v, tv = self.expr(node.args[0], env, binds, ref)
             what = ast.unparse(node.args[1])
@@ -292,13 +412,13 @@ class Fn:
         if text == 'len' and len(node.args) == 1:
             k = self.key_of(node.args[0])
             v, tv = self.expr(node.args[0], env, binds, ref)
-            if tv in ('T', 'TS', 'GS', 'M', 'I'):
+            if tv in ('T', 'TS', 'TU', 'GS', 'M', 'I', 'DS', 'SEGS', 'FS'):
                 return f'length {par(v)}', 'N'
             if tv == 'D':
                 r = ref.get(k)
                 if r == 'tensor':
                     return f'length (as_tensor {par(v)})', 'N'
-                if r in ('seq', 'tuple'):
+                if r in ('seq', 'tuple', 'list'):
                     return f'length (as_seq {par(v)})', 'N'
                 return f'py_len {par(v)}', 'N'
             self.err(node, 'len() of this is not accepted')
@@ -337,6 +457,8 @@ class Fn:
         if text not in self.oracles and '.' in text and text.split('.', 1)[0] in ('self', self.cls) \
                 and text.split('.', 1)[1] in self.helpers:
             return self.inline(node, text, env, binds, ref)
+        if isinstance(node.func, ast.Name) and node.func.id in self.module_helpers and node.func.id not in env:
+            return self.inline(node, node.func.id, env, binds, ref)
         if text in self.oracles:
             cname, cty, rty, argk = self.oracles[text]
             if len(argk) != len(node.args):
@@ -381,10 +503,10 @@ class Fn:
                 return f'{fn_from} ({lo}) {par(v)}', tv
             self.err(node, 'slice form not accepted (only x[:k] and x[k:])')
         if isinstance(s, ast.Constant) and s.value == 0:
-            if tv in ('TS', 'GS'):
+            if tv in ('TS', 'TU', 'GS', 'DS'):
                 name = self.fresh('e')
                 binds.append((name, f'index0 {par(v)}'))
-                return name, 'T' if tv == 'TS' else 'G'
+                return name, {'TS': 'T', 'TU': 'T', 'GS': 'G', 'DS': 'D'}[tv]
             if tv == 'D' and ref.get(k) != 'tensor':
                 name = self.fresh('e')
                 binds.append((name, f'index0 (as_seq {par(v)})'))
@@ -405,13 +527,23 @@ class Fn:
             self.err(node, 'only a single plain `for` clause is accepted')
         g = node.generators[0]
         env2 = dict(env)
-        if (isinstance(g.iter, ast.Call) and ast.unparse(g.iter.func) == 'zip' and len(g.iter.args) == 2
+        if (isinstance(g.iter, ast.Call) and ast.unparse(g.iter.func) == 'zip' and len(g.iter.args) == 2 and not g.iter.keywords
+                and not any(isinstance(x, ast.Starred) for x in g.iter.args)
                 and isinstance(g.target, ast.Tuple) and len(g.target.elts) == 2 and all(isinstance(e, ast.Name) for e in g.target.elts)):
-            a, ta = self.expr(g.iter.args[0], env, binds, ref)
-            b, tb = self.expr(g.iter.args[1], env, binds, ref)
-            a, b = self.as_seq(g.iter.args[0], a, ta), self.as_seq(g.iter.args[1], b, tb)
             x, n = g.target.elts[0].id, g.target.elts[1].id
-            env2[x], env2[n] = (x, 'T'), (n, 'T')
+            if self.key_of(g.iter.args[0]) in self.callables:
+                # zip(self.trans, xs): a list of user callables against the tensors
+                a = self.callables[self.key_of(g.iter.args[0])][2]
+                if (a, COQTY['FS']) not in self.used_oracles:
+                    self.used_oracles.append((a, COQTY['FS']))
+                env2[x] = (x, 'F1')
+            else:
+                a, ta = self.expr(g.iter.args[0], env, binds, ref)
+                a = self.as_seq(g.iter.args[0], a, ta)
+                env2[x] = (x, 'T')
+            b, tb = self.expr(g.iter.args[1], env, binds, ref)
+            b = self.as_seq(g.iter.args[1], b, tb)
+            env2[n] = (n, 'T')
             b2 = []
             e, te = self.expr(node.elt, env2, b2, ref)
             if self.has_partial(b2) or te != 'T':
@@ -419,15 +551,23 @@ class Fn:
             return f'zipwith (fun {x} {n} => {self.wrap_binds(b2, e)}) ({a}) ({b})', 'TS'
         if isinstance(g.target, ast.Name):
             a, ta = self.expr(g.iter, env, binds, ref)
-            a = self.as_seq(g.iter, a, ta)
+            if ta == 'GS':
+                ety = 'G'
+            elif ta == 'SEGS':
+                ety = 'TS'
+            else:
+                a, ety = self.as_seq(g.iter, a, ta), 'T'
             x = g.target.id
-            env2[x] = (x, 'T')
+            env2[x] = (x, ety)
             b2 = []
             e, te = self.expr(node.elt, env2, b2, ref)
-            if te != 'T':
-                self.err(node, 'element of the comprehension is not a tensor')
+            if te not in ('T', 'D'):
+                self.err(node, 'element of the comprehension is not a tensor / a get_examples() value')
+            lty = 'TS' if te == 'T' else 'DS'
             if not self.has_partial(b2):
-                return f'map (fun {x} => {self.wrap_binds(b2, e)}) ({a})', 'TS'
+                return f'map (fun {x} => {self.wrap_binds(b2, e)}) ({a})', lty
+            if lty != 'TS':
+                self.err(node, 'partial element not accepted here')
             name = self.fresh('l')
             binds.append((name, f"all_some' (map (fun {x} => {self.wrap_binds(b2, 'Some (' + e + ')')}) ({a}))"))
             return name, 'TS'
@@ -449,8 +589,8 @@ class Fn:
             return []
         e, te = self.expr(value_node, env, binds, ref)
         want = self.fields[k[5:]] if k.startswith('self.') else None
-        if te == 'EMPTY' and want is None:
-            env[k] = ('[]', 'EMPTY')          # a local accumulator; its element type is fixed by the first append
+        if te in ('EMPTY', 'EMPTYTU') and want is None:
+            env[k] = ('[]', te)               # a local accumulator; its element type is fixed by the first append / +=
             return []
         if te == 'EMPTY':
             if want not in ('GS',):
@@ -466,50 +606,63 @@ class Fn:
         self.pending_lets = []
         return lines
 
-    def cond_assign(self, node, env, ref):
-        """`if c: v = e` (no else) -> v' := if c then e else v ;  `if c: v = e1 else: v = e2` -> v' := if c then e1 else e2"""
+    def cond_value(self, node, env, ref, k=None):
+        """(key, binds, term, type): the value of the ONE variable assigned by
+        `if c: v = e1 [elif c2: v = e2 ...] [else: v = e3]` (a missing branch keeps the old value)"""
         binds = []
-        self.pending_lets = []
         c, _ = self.cond(node.test, env, binds, ref)
         r1, r2 = self.refine(node.test, ref)
-        lines = self.bind_lines(binds)
 
-        def single_assign(stmts):
+        def branch(stmts, r, k):
+            if not stmts:
+                if k is None or k not in env or env[k][0] == '#underlying':
+                    self.err(node, 'conditional assignment to a variable that is not defined before')
+                return k, [], env[k][0], env[k][1]
             if len(stmts) == 1 and isinstance(stmts[0], ast.Assign) and len(stmts[0].targets) == 1:
-                return stmts[0].targets[0], stmts[0].value
-            self.err(node, 'only a single assignment is accepted in this branch')
-        t1, v1 = single_assign(node.body)
-        k = self.key_of(t1)
-        if k is None:
-            self.err(node, 'assignment target not accepted')
-        b1, b2 = [], []
-        e1, ty1 = self.expr(v1, env, b1, r1)
-        if node.orelse:
-            t2, v2 = single_assign(node.orelse)
-            if self.key_of(t2) != k:
-                self.err(node, 'the two branches assign different variables')
-            e2, ty2 = self.expr(v2, env, b2, r2)
-            ty = ty1 if ty1 == ty2 else self.err(node, f'branches assign different types {ty1} / {ty2}')
-        else:
-            if k not in env:
-                self.err(node, 'conditional assignment to a variable that is not defined before')
-            e2, ty = env[k]
-            e1 = self.coerce(node, e1, ty1, ty)
+                kk = self.key_of(stmts[0].targets[0])
+                if kk is None:
+                    self.err(stmts[0], 'assignment target not accepted')
+                b = []
+                e, t = self.expr(stmts[0].value, env, b, r)
+                return kk, b, e, t
+            if len(stmts) == 1 and isinstance(stmts[0], ast.If):
+                kk, b, e, t = self.cond_value(stmts[0], env, r, k)
+                return kk, b, e, t
+            self.err(node, 'only a single assignment (or an elif chain of them) is accepted in this branch')
+        k1, b1, e1, t1 = branch(node.body, r1, k)
+        if k is not None and k1 != k:
+            self.err(node, 'the branches assign different variables')
+        k = k1
+        k2, b2, e2, t2 = branch(node.orelse, r2, k)
+        if k2 != k:
+            self.err(node, 'the branches assign different variables')
+        ty = t1
+        if t1 != t2:
+            ty = 'D'
+            e1, e2 = self.coerce(node, e1, t1, 'D'), self.coerce(node, e2, t2, 'D')
+        if self.has_partial(b1) or self.has_partial(b2):
+            v = self.fresh('v')
+            c, x1, x2 = self.norm_cond(c, self.wrap_binds(b1, "Some (" + e1 + ")"), self.wrap_binds(b2, "Some (" + e2 + ")"))
+            binds.append((v, f'(if {c} then {x1} else {x2})'))
+            return k, binds, v, ty
+        c, x1, x2 = self.norm_cond(c, self.wrap_binds(b1, e1), self.wrap_binds(b2, e2))
+        return k, binds, f'(if {c} then {x1} else {x2})', ty
+
+    def cond_assign(self, node, env, ref):
+        self.pending_lets = []
+        k, binds, code, ty = self.cond_value(node, env, ref)
         if self.pending_lets:
             self.err(node, 'sampling the underlying generator inside a conditional is not accepted')
         if k.startswith('self.'):
             if k[5:] not in self.fields:
                 self.err(node, 'assignment to an unknown field')
-            want = self.fields[k[5:]]
-            e1, e2 = self.coerce(node, e1, ty, want) if node.orelse else e1, self.coerce(node, e2, ty, want) if node.orelse else e2
-            ty = want
+            code = self.coerce(node, code, ty, self.fields[k[5:]])
+            ty = self.fields[k[5:]]
+        lines = self.bind_lines(binds)
         name = self.bind(env, k, ty)
-        if self.has_partial(b1) or self.has_partial(b2):
-            c, x1, x2 = self.norm_cond(c, self.wrap_binds(b1, "Some (" + e1 + ")"), self.wrap_binds(b2, "Some (" + e2 + ")"))
-            lines.append(f'{name} <- (if {c} then {x1} else {x2}) ;;')
-        else:
-            c, x1, x2 = self.norm_cond(c, self.wrap_binds(b1, e1), self.wrap_binds(b2, e2))
-            lines.append(f'let {name} := if {c} then {x1} else {x2} in')
+        if code.startswith('(if ') and code.endswith(')') and _balanced_outer(code):
+            code = code[1:-1]
+        lines.append(f'let {name} := {code} in')
         return lines
 
     def ret_value(self, node, env, ref, binds):
@@ -555,7 +708,12 @@ class Fn:
                 self.err(s, 'sampling inside a return is not accepted')
             return self.wrap_binds(binds, self.finish(env, v))
         if isinstance(s, ast.If):
-            ends_ret = lambda b: bool(b) and isinstance(b[-1], ast.Return)
+            def ends_ret(b):
+                if not b:
+                    return False
+                if isinstance(b[-1], ast.Return):
+                    return True
+                return isinstance(b[-1], ast.If) and ends_ret(b[-1].body) and ends_ret(b[-1].orelse)
             if len(s.body) == 1 and isinstance(s.body[0], ast.Raise) and not s.orelse:
                 binds = []
                 self.pending_lets = []
@@ -637,18 +795,23 @@ class Fn:
 
     # ------------------------------------------------------------------ helpers of the same class are inlined
     def inline(self, node, text, env, binds, ref):
-        owner, name = text.split('.', 1)
-        fdef = self.helpers[name]
+        if '.' in text:
+            owner, name = text.split('.', 1)
+            fdef = self.helpers[name]
+        else:
+            owner, name, fdef = None, text, self.module_helpers[text]
         if self.inline_depth >= 3:
             self.err(node, 'helper calls nested too deeply')
         a = fdef.args
         if a.vararg or a.kwarg or a.kwonlyargs or a.defaults or a.kw_defaults or a.posonlyargs:
             self.err(node, 'helper with default / variadic parameters')
         decos = [ast.unparse(d) for d in fdef.decorator_list]
-        if any(d != 'staticmethod' for d in decos):
+        if any(d != 'staticmethod' for d in decos) or (owner is None and decos):
             self.err(node, f'helper with decorator(s) {decos}')
         params = [x.arg for x in a.args]
-        if not decos:
+        if owner is None:
+            decos = ['module-level']           # no self: like a static method
+        elif not decos:
             if params[:1] != ['self'] or owner != 'self':
                 self.err(node, 'an instance method must be called on self')
             params = params[1:]
@@ -669,7 +832,7 @@ class Fn:
         for p, v, tv in vals:
             env2[p] = (v, tv)
         saved = self.fdef_ctx
-        self.fdef_ctx = f'{self.cls}.{name} (inlined)'
+        self.fdef_ctx = f'{self.cls + "." if owner else ""}{name} (inlined)'
         self.inline_depth += 1
         try:
             return self.ret_expr(fdef.body, env2, binds, {})
@@ -742,7 +905,7 @@ class Fn:
             seq, ts = self.expr(it, env, binds, ref)
             if ts == 'GS':
                 ety = 'G'
-            elif ts in ('TS', 'D'):
+            elif ts in ('TS', 'TU', 'D'):
                 seq, ety = self.as_seq(it, seq, ts), 'T'
             else:
                 self.err(s, 'iteration over this is not accepted')
@@ -770,20 +933,49 @@ class Fn:
             acc = self.key_of(single.func.value)
             b2 = []
             e, te = self.expr(single.args[0], env2, b2, ref)
-            if acc is None or self.has_partial(b2) or te not in ('T', 'G'):
+            if acc is None or self.has_partial(b2) or te not in ('T', 'G', 'D'):
                 self.err(s, 'append not accepted')
             e = self.wrap_binds(b2, e)
-            lty = 'TS' if te == 'T' else 'GS'
+            lty = {'T': 'TS', 'G': 'GS', 'D': 'DS'}[te]
             if zipped:
                 code = f'zipwith (fun {zipped[2]} {zipped[3]} => {e}) ({zipped[0]}) ({zipped[1]})'
             else:
                 code = f'map (fun {x} => {e}) ({seq})'
+        elif not zipped and isinstance(s.body[-1], ast.AugAssign) and isinstance(s.body[-1].op, ast.Add):
+            # local statements, then `acc += <tuple>`: the tuples of all iterations, concatenated
+            b2 = []
+            for st in s.body[:-1]:
+                if isinstance(st, ast.Assign) and len(st.targets) == 1 and isinstance(st.targets[0], ast.Name):
+                    e, te = self.expr(st.value, env2, b2, ref)
+                    kk = st.targets[0].id
+                elif isinstance(st, ast.If):
+                    kk, bb, e, te = self.cond_value(st, env2, ref)
+                    b2 += bb
+                    if kk.startswith('self.'):
+                        self.err(st, 'assignment to a field inside a loop body')
+                else:
+                    self.err(st, 'statement not accepted in a loop body')
+                if kk in env and kk not in (x,):
+                    self.err(st, 'a loop body may only assign its own local variables')
+                nm = self.fresh(kk)
+                b2.append((nm, e, 'let'))
+                env2[kk] = (nm, te)
+            last = s.body[-1]
+            acc = self.key_of(last.target)
+            v, tv = self.expr(last.value, env2, b2, ref)
+            if acc is None or self.has_partial(b2) or self.pending_lets:
+                self.err(s, 'loop body not accepted')
+            if isinstance(last.value, ast.Tuple) and len(last.value.elts) == 1 and v.startswith('[') and v.endswith(']'):
+                # `acc += (e,)` : one member per iteration, the same term as tuple(e for ...)
+                code, lty = f'map (fun {x} => {self.wrap_binds(b2, v[1:-1])}) ({seq})', 'TU'
+            else:
+                code, lty = f'flat_map (fun {x} => {self.wrap_binds(b2, self.as_seq(last.value, v, tv))}) ({seq})', 'TU'
         else:
             if zipped or ety != 'G':
-                self.err(s, 'loop body not accepted (only a single append, or appends of generators)')
+                self.err(s, 'loop body not accepted (only a single append, `+=` of tuples, or appends of generators)')
             acc, lst = self.append_list(s.body, env2, ref)
             code, lty = f'flat_map (fun {x} => {lst}) ({seq})', 'GS'
-        if acc not in env or env[acc][1] not in ('EMPTY', lty):
+        if acc not in env or not (env[acc][1] == lty or (env[acc][1] == 'EMPTY' and lty in ('TS', 'GS', 'DS')) or (env[acc][1] == 'EMPTYTU' and lty == 'TU')):
             self.err(s, 'accumulator is not a list of this kind defined before the loop')
         old = env[acc][0]
         if acc.startswith('self.') and self.fields.get(acc[5:]) != lty:
